@@ -18,7 +18,13 @@ static const Rep reps [] = {
 	{ SF_FORMAT_CAF | SF_FORMAT_ALAC_16, 2, false, true, true, "CAFALAC" }, { SF_FORMAT_WAV | SF_FORMAT_IMA_ADPCM, 2, false, true, true, "WAVIMA" },
 	{ SF_FORMAT_RAW | SF_FORMAT_VOX_ADPCM, 1, false, false, false, "RAWVOX" }, { SF_FORMAT_SDS | SF_FORMAT_PCM_16, 1, false, false, false, "SDS16" },
 	{ SF_FORMAT_XI | SF_FORMAT_DPCM_16, 1, false, false, false, "XI16" }, { SF_FORMAT_W64 | SF_FORMAT_PCM_32, 2, true, false, false, "W64" },
-	{ SF_FORMAT_MAT5 | SF_FORMAT_DOUBLE, 2, true, false, false, "MAT5" }, { SF_FORMAT_PAF | SF_FORMAT_PCM_24, 2, false, false, false, "PAF24" } } ;
+	{ SF_FORMAT_MAT5 | SF_FORMAT_DOUBLE, 2, true, false, false, "MAT5" }, { SF_FORMAT_PAF | SF_FORMAT_PCM_24, 2, false, false, false, "PAF24" },
+	// (second group, added when the thorough tier of C16 met a crash in aiff_ima_seek: one representative per remaining seek / codec wrapper)
+	{ SF_FORMAT_AIFF | SF_FORMAT_IMA_ADPCM, 2, false, true, true, "AIFFIMA" }, { SF_FORMAT_WAV | SF_FORMAT_MS_ADPCM, 2, false, true, true, "WAVMS" },
+	{ SF_FORMAT_WAV | SF_FORMAT_GSM610, 1, false, true, true, "WAVGSM" }, { SF_FORMAT_AU | SF_FORMAT_G721_32, 1, false, false, false, "AUG721" },
+	{ SF_FORMAT_WAV | SF_FORMAT_NMS_ADPCM_24, 1, false, true, true, "WAVNMS" }, { SF_FORMAT_AIFF | SF_FORMAT_DWVW_16, 1, false, true, true, "AIFFDWVW" },
+	{ SF_FORMAT_VOC | SF_FORMAT_PCM_16, 2, true, false, false, "VOC16" }, { SF_FORMAT_SVX | SF_FORMAT_PCM_16, 1, true, false, false, "SVX16" },
+	{ SF_FORMAT_CAF | SF_FORMAT_ALAC_24, 3, false, true, true, "CAFALAC24" }, { SF_FORMAT_HTK | SF_FORMAT_PCM_16, 1, true, false, false, "HTK" } } ;
 static const int NREP = sizeof (reps) / sizeof (reps [0]) ;
 
 static uint64_t digest (SNDFILE *f, MemFile &mf)
